@@ -59,9 +59,38 @@ def _column_of(e, org=None, at=None):
     return None
 
 
-@analysis("nodal", ["C01.a", "C01.b", "C01.d", "C01.e", "C01.f", "C01.h", "C01.i", "C07.h", "C07.j", "C18.a", "C18.b"])
+rule("C01.l", "a wrapper declares every node of the asset it wraps: the nodes it hands to Asset.__init__ are the wrapped asset's whole node "
+              "list, not one element (the report lists dispatch per declared node; flows at undeclared nodes are in the nodal rows but not "
+              "in the report)", floor=1, props=["C01", "C16"])
+
+
+@analysis("nodal", ["C01.a", "C01.b", "C01.d", "C01.e", "C01.f", "C01.h", "C01.i", "C07.h", "C07.j", "C18.a", "C18.b", "C01.l"])
 def run(ctx):
     p = ctx.p
+    # ---- C01.l nodes a wrapper declares
+    n_l = 0
+    for ci in sorted(p.asset_classes(), key=lambda c: c.name):
+        init = ci.methods.get("__init__")
+        if init is None:
+            continue
+        for c in p.calls_in(init):
+            if not (isinstance(c.func, ast.Attribute) and c.func.attr == "__init__"):
+                continue
+            nv = au.kwarg(c, "nodes")
+            if nv is None:
+                continue
+            inner = [x for x in au.walk_local(nv) if isinstance(x, ast.Attribute) and x.attr in ("nodes", "node_names") and isinstance(x.value, ast.Name)
+                     and init.param(x.value.id) is not None and x.value.id not in ("self", "nodes")]
+            if not inner:
+                continue
+            n_l += 1
+            elem = [x for x in au.walk_local(nv) if isinstance(x, ast.Subscript) and any(x.value is y for y in inner)]
+            ctx.ob("C01.l", init, "nodes = %s" % au.short(nv, 50), not elem,
+                   "%s declares only %s of the wrapped asset's nodes, but its optimisation problem is the wrapped asset's and has dispatch rows at "
+                   "all of them: the portfolio balances those flows, the report - which lists dispatch per *declared* node of each asset - leaves "
+                   "them out, so the reported dispatch at the other nodes does not net to zero (3.0 missing at node 'site' for a scaled "
+                   "transport)" % (ci.name, au.short(elem[0], 30) if elem else ""), node=c)
+    ctx.require(n_l >= 1, "no wrapper constructor forwarding the wrapped asset's nodes found", rules=["C01.l"])
     pf = p.cls("Portfolio").methods.get("setup_optim_problem")
     ctx.require(pf is not None, "Portfolio.setup_optim_problem vanished")
     ff = ctx.flow(pf)
